@@ -21,11 +21,17 @@ MANIFEST = {
                 "mt_plan_stable, mt_step_enabled, mt_call_enabled_pre/post/done) for the String/Variant/Xml::Variant calls; "
                 "single-threaded ref_counts_handles, freed_once_after_last, no_inplace_write_while_shared, st_write_sole, st_quiet for all "
                 "accepted API histories, and nested_st_quiet, nested_ref_counts_handles, nested_ref_split, nested_freed_once_after_last, "
-                "nested_no_inplace_write_while_shared, nested_states_reachable for all accepted histories of the calls on payloads with "
+                "nested_no_inplace_write_while_shared, nested_states_reachable, and cascade completeness nested_no_leak (no handle is left "
+                "inside a released block, no live block without a handle; all calls except d->next = s) for all accepted histories of the "
+                "calls on payloads with "
                 "SEVERAL embedded handles (list payloads holding shared Variants: append of a Variant variable, element read incl. from "
                 "the own payload, clone on mutable access = one increment per inner payload, in-place operator=(List) releasing the old "
-                "elements; Xml elements with children: append, child read, clone; all executed with the destructor cascade runC: the "
-                "releasing thread adopts the embedded handles, deletes the block, releases each of them, recursively); totality: "
+                "elements; the same for Array<Variant> payloads; Xml elements with children: append, child read, clone; all executed with "
+                "the destructor cascade runC: the "
+                "releasing thread adopts the embedded handles, deletes the block, releases each of them, recursively); for ANY interleaving "
+                "of any number of threads running such step lists with the cascade (SReach): mt_orphans_pending (every handle left in a "
+                "released block has its decrement pending in the list of the thread that adopted it) and mt_no_leak_quiescent (when no "
+                "thread is inside a call no released block contains a handle); totality: "
                 "apiRun_total_partial / apiRun_total_noNext (String/Variant/Xml::Variant calls and Ptr calls on objects WITHOUT a next "
                 "handle are never rejected; calls that create or walk next handles and the nested calls: acceptance is a hypothesis, "
                 "validated by examples and by the correspondence run); no_use_after_drop now for ALL calls of Model.lean incl. every "
@@ -33,8 +39,7 @@ MANIFEST = {
                 "the decrement through it and the store that overwrites it = the order of Ptr::operator= repaired by D37). NOT covered "
                 "by any C09 theorem: in-place writes through an embedded handle, the String inside a Variant/Xml::Variant box (flat "
                 "content, hence the cross-kind calls Variant = String variable / String = variant.toString()), boxed elements of "
-                "array/map payloads and Xml attributes, cascade completeness as a theorem (no handle left in a released block: ledger "
-                "and examples only). The model is tied to the current headers on every run: identical op lines are executed by "
+                "map payloads and Xml attributes, cascade completeness for d->next = s on a shared object. The model is tied to the current headers on every run: identical op lines are executed by "
                 "the compiled model and by a harness over the real classes whose allocator is a ledger (per payload: live flag, white-box "
                 "counter, number of releases, embedded handles; per handle: designated payload and content), single-threaded (exhaustive "
                 "small scope + random histories) and multi-threaded (2-3 threads with random programs over their own handles, atomics and "
@@ -811,9 +816,9 @@ def check(ctx):
             "distinct_nontrivial = distinct (op-kind set, final observation) among histories in which a payload was shared")
         ctx.cov["exhaustive"] = False
         ctx.cov["open_statements"] = ["in-place writes through an embedded handle and the cross-kind calls Variant = String variable / String = "
-                                      "variant.toString() (the String inside a box is flat); boxed elements of array/map payloads (Props.lean OPEN block)",
+                                      "variant.toString() (the String inside a box is flat); boxed values of map payloads, Xml attributes (Props.lean OPEN block)",
                                       "totality of the RefCount::Ptr calls that create or walk `next` handles and of the nested calls (fuel of the cascade), "
-                                      "cascade completeness as a theorem (Props.lean OPEN blocks)"]
+                                      "cascade completeness for d->next = s on a shared object (Props.lean OPEN blocks)"]
         ctx.cov["exhaustive_scope"] = (f"single-threaded length<={depth} per kind: {len(ex)} histories; "
                                        f"schedules: all of {{t1,t2}}^{d2} for {len(mte) // 2 ** d2} scenarios, all of {{t1,t2,t3}}^{d3} for {len(mte3) // 3 ** d3} scenarios")
         ops = {}
